@@ -243,7 +243,12 @@ func ext۰reflect۰rtype۰Size(fr *frame, args []value) value {
 var anyTokenRe = regexp.MustCompile(`\bany\b`)
 
 func ext۰reflect۰rtype۰String(fr *frame, args []value) value {
-	s := types.TypeString(args[0].(rtype).t, func(p *types.Package) string { return p.Name() })
+	return rtypeString(args[0].(rtype))
+}
+
+// rtypeString spells a type the way reflect.Type.String does.
+func rtypeString(rt rtype) string {
+	s := types.TypeString(rt.t, func(p *types.Package) string { return p.Name() })
 	// reflect spells the empty interface "interface {}"
 	return anyTokenRe.ReplaceAllString(s, "interface {}")
 }
